@@ -906,6 +906,25 @@ server6:
 		s.stop()
 	}
 
+	// ------------------------------------------------------------------ a section without listeners
+	for vi, bad := range []string{"    - no_such_plugin: x\n", "    - dns:\n", "    - server_id: LL\n"} {
+		conf := "server4:\n  listen: ['0.0.0.0']\n  plugins:\n    - server_id: 10.77.0.1\n    - netmask: 255.255.255.0\nserver6:\n  listen: " + []string{"[]", "''", "[]"}[vi] + "\n  plugins:\n" + bad
+		name := fmt.Sprintf("real binary, server6 with an empty listen list and the plugin item %q", strings.TrimSpace(bad))
+		s, state := w.startSrv(dir, fmt.Sprintf("nolisten%d", vi), conf, nil, []string{"/proc/net/udp:0043"}, 4*time.Second, nil)
+		ctx.Eval("C13", 1)
+		switch state {
+		case "ready":
+			ctx.Viol("C13", "bad-config-accepted:section-without-listeners", "%s: start-up must abort with an error (the listed plugin is unknown or its setup fails); the server came up and listens on port 67", name)
+		case "exited":
+			ctx.Count("wire.section_without_listeners.startup_aborted", 1)
+		default:
+			ctx.Count("wire.section_without_listeners.neither_up_nor_gone_after_4s", 1)
+		}
+		if s != nil {
+			s.stop()
+		}
+	}
+
 	// ------------------------------------------------------------------ a log file that cannot be written
 	{
 		conf := fmt.Sprintf("server4:\n  listen: ['0.0.0.0']\n  plugins:\n    - server_id: 10.77.0.1\n    - range: %s/leases-logfull.db 10.77.0.100 10.77.0.180 60s\n    - netmask: 255.255.255.0\n", dir)
@@ -981,6 +1000,34 @@ server6:
 					ctx.Viol("C01", "wire:no-reply", "%s: a SOLICIT with an IA_PD from fe80::aa:%x got no prefix (answered=%v)", name, 0x50+k, answered)
 				} else {
 					ctx.Count("wire.tty.prefixes_delegated", 1)
+				}
+			}
+			{
+				// a client (or relay) with a global source address that talks to the server's LINK-LOCAL unicast
+				// address (the address a relay agent was configured with): the reply goes back to the global source
+				cmac := []byte{0x02, 0xaa, 0x00, 0x00, 0x00, 0x51}
+				var src16, dst16 [16]byte
+				copy(src16[:], net.ParseIP("2001:db8:77::51").To16())
+				if ll := w.llOf("ve0"); ll != nil {
+					copy(dst16[:], ll.To16())
+					w.xid++
+					msg := pkt.Msg6(11, w.xid&0xffffff, []pkt.Opt6{pkt.O6(pkt.OptClientID6, pkt.DUIDLL(cmac)), pkt.ORO(23)})
+					obs := w.exchange("ve1", pkt.BuildFrame6(cmac, w.ve0mac, src16, dst16, 546, 547, msg), 500*time.Millisecond)
+					if w.srvDied(s, name, "an INFORMATION-REQUEST from a global source to the link-local address", msg) {
+						return
+					}
+					ctx.Eval("C12", 1)
+					answered := false
+					for i := range obs {
+						if obs[i].f6 != nil && obs[i].f6.DstIP == src16 {
+							answered = true
+						}
+					}
+					if !answered {
+						ctx.Viol("C12", "wire:no-reply", "%s: an INFORMATION-REQUEST from 2001:db8:77::51 addressed to the server's link-local address %v got no reply", name, w.llOf("ve0"))
+					} else {
+						ctx.Count("wire.tty.global_source_to_link_local_address_answered", 1)
+					}
 				}
 			}
 			{
